@@ -25,10 +25,14 @@ CLAIMED["C14"] = dict(
          "evaluation; every failing add/add_if_absent/replace/remove (incl. create_if_missing) leaves the document untouched; a successful write is "
          "read back by get; '-' appends, add inserts, replace overwrites. Tied to the code by differential correspondence (json and ojson) and "
          "judged against the Lean RFC 6901/6902 Spec and an independent Python RFC 6901 tokenizer on the real outputs.",
-    note="Trusted: Lean kernel + standard axioms; hand-written model validated by the correspondence run only; flatten is modelled and tied, "
-         "unflatten(flatten(d)) = d is only observed on the real code (unflatten is not modelled); refinement of the modifying operations to the "
+    note="Trusted: Lean kernel + standard axioms; hand-written model validated by the correspondence run only; flatten and unflatten (both options) are modelled and tied; "
+         "unflatten(flatten(d)) = d is proved for every Roundtrippable document of the sorted flavour (decidable predicate: under the default option no "
+         "non-empty object whose names are exactly the indices 0..n-1 - such an object provably comes back as an array -, under assume_object no non-empty "
+         "array), every pointer flatten emits resolves to its value, every leaf is covered; the ojson flavour and the exact image of arrays under "
+         "assume_object are compared per case. D87 (names with leading zeros taken for indices, a member lost) found and fixed; "
+         "refinement of the modifying operations to the "
          "Spec is checked per case by the driver, not proved.",
-    technique="Lean 4 theorems (inverse pair, refinement of get, failure atomicity) + differential correspondence + Lean Spec oracle",
+    technique="Lean 4 theorems (inverse pair, refinement of get, failure atomicity, unflatten o flatten = id) + differential correspondence + Lean Spec oracle",
     design="§5 C14")
 CLAIMED["C15"] = dict(
     text="Lean 4 model of jsonpatch.hpp apply_patch (definite_path, insert-else-replace fallback, undo log, unwinder that stops at the first failing "
@@ -170,7 +174,13 @@ CLAIMED["C09"] = dict(
          "insert_or_assign / try_emplace / erase / merge are the finite-map operations and keep sorted unique keys, and the four int64/uint64 comparison "
          "arms (C++ unsigned conversions written out) are exactly the order of the stored numbers. Tie: operation sequences over a pool of 4 json/ojson "
          "values run through the real basic_json and the Lean model, compared result by result and slot by slot; every storage-kind pair from a catalogue "
-         "for the relational laws; explicit-storage integer pairs against the Lean compare; is<T>/as<T> on every width boundary.",
+         "for the relational laws; explicit-storage integer pairs against the Lean compare; is<T>/as<T> on every width boundary."
+         " The WHOLE of basic_json::compare (every storage-kind pair, doubles and halves on their bit patterns with static_cast<double>(integer) "
+         "rounding written out, strings, byte strings, arrays and sorted objects lexicographically, the kind-index fall-through) is modelled and tied "
+         "to the real compare() and the six operators on all ordered pairs of a 165-value boundary alphabet plus generated nestings; proved: "
+         "compare a a = 0 and compare b a = -compare a b for all values without NaN (compare_refl, compare_antisymm), and on the sub-domain where "
+         "they HOLD (no NaN, no json() empty_object, integers within +-2^53, strings all short or all long) == is an equivalence, < a strict weak "
+         "order and == a congruence for <; outside it each law has a kernel-checked counterexample reproduced on the real code.",
     note="Partial: compare() beyond the integer arms (double, half, strings, tagged strings, containers) is checked against the relational laws on a "
          "catalogue of all storage kinds, not proved. D6, D8, D31 (comparison defects) found and fixed; D7 (bignum strings compared through double) known.",
     technique="Lean 4 theorems (frame rule, finite-map laws, integer order) + differential operation sequences against the Lean value model",
